@@ -81,7 +81,28 @@ func main() {
 	one := flag.String("one", "", "debug: run one micro scenario (JSON spec) in this process")
 	brute := flag.Bool("brute", false, "debug: no sleep sets")
 	mode := flag.String("mode", "dpor", "debug: dpor|sleep|brute")
+	histCfg := flag.String("hist", "", "debug: run one history; JSON HistCfg")
+	events := flag.String("events", "", "debug: comma separated events for -hist")
 	flag.Parse()
+	if *histCfg != "" {
+		var cfg nsqd.HistCfg
+		if err := json.Unmarshal([]byte(*histCfg), &cfg); err != nil {
+			fmt.Println(err)
+			os.Exit(2)
+		}
+		var evs []string
+		if *events != "" {
+			evs = strings.Split(*events, ",")
+		}
+		t0 := time.Now()
+		r := runHist(cfg, evs, true)
+		fmt.Printf("key: %s\nmenu: %v\n(%v)\n", r.Key, r.Menu, time.Since(t0))
+		for _, v := range r.Viol {
+			fmt.Printf("VIOL %s\n   %s\n", v.Sig, v.Detail)
+		}
+		os.RemoveAll(nsqd.VerifBase)
+		return
+	}
 	if *one != "" {
 		var spec nsqd.MicroSpec
 		if err := json.Unmarshal([]byte(*one), &spec); err != nil {
